@@ -26,7 +26,7 @@ RULE = ('(A) Hypothesis draws API-built objects: signatures (24 kinds x option s
         'unassigned tags) x header form (new 1/2/5, old 1/2/4, partial, indeterminate) and checks acceptance, framing, field values and idempotence. Non-trivial: (A) non-empty '
         'body with trailing data; (B) accepted packet whose first serialisation differs from the input or that uses a non-default header form; distinct by (tag, version, header '
         'form, algorithm/usage, size class).')
-RULE += ' Header forms include partial chunks closed by a five-octet length; protected secret-key packets are unprotect()ed in place and must serialise unchanged.'
+RULE += ' Header forms include partial chunks closed by a five-octet length; protected secret-key packets are unprotect()ed in place and must serialise unchanged. Builders also for secret keys of unknown algorithms and in the legacy protection form, empty bodies, unhashed flag subpackets with undefined bits; copies of parsed packets and of built (also encrypted) messages must serialise identically; API values that overflow fixed-width fields are either refused or emit parseable packets; the reference\'s view of every subpacket value is unchanged by re-serialisation.'
 ASSUMPTIONS = ['refpgp.wire splitter frames packets independently', 'field values are compared through a generic snapshot of the object graph (public and private attributes, except '
                'the header and caches of received octets)', 'packet tag 0 is never generated (RFC 4880: must not be used)']
 
